@@ -249,3 +249,9 @@ Proof.
 Qed.
 
 End Tree.
+
+Arguments WF {A} n.
+Arguments BS {A} n.
+Arguments sum_values {A} ks.
+Arguments sum_notls {A} ks.
+Arguments kid_weight_ok {A} fi val notl k.
